@@ -2108,6 +2108,13 @@ func runC12History(seed int64, k int, fam string) c12Case {
 	case "details":
 		flavour, rotation = []string{"copy", "alias"}[(k/4)%2], (k/8)%2 == 0
 		srv = c12DetailSrv(k, rotation)
+	case "lists":
+		// k%4: server variant; k/4 in 0..5: block of (endpoint, method) pairs x rotation x storage flavour
+		flavour, rotation = []string{"copy", "alias"}[((k/4)/3)%2], (k/4)%2 == 0
+		srv = c12ListsSrv(k, rotation)
+	case "collide":
+		flavour, rotation = []string{"copy", "alias"}[(k/8)%2], (k/4+k)%2 == 0
+		srv = c12EndpointSrv(k, rotation)
 	}
 	// where the provider is mounted: a dimension of EVERY family, by history index (the same for every
 	// seed), crossed with storage flavour and rotation: default / path prefix / renamed registration
@@ -2119,6 +2126,8 @@ func runC12History(seed int64, k int, fam string) c12Case {
 		layout = (k / 16) % 4
 	case "details":
 		layout = (k + k/4) % 4
+	case "lists", "collide":
+		layout = (k/4 + k/2) % 4
 	}
 	srv.Prefix = []string{"", "/auth", "", "/tenants/acme"}[layout]
 	srv.DcrPath = []string{"", "", "/clients", "/connect/register"}[layout]
@@ -2142,6 +2151,10 @@ func runC12History(seed int64, k int, fam string) c12Case {
 		g.famEndpoints(k)
 	case "details":
 		g.famDetails(k)
+	case "lists":
+		g.famLists(k)
+	case "collide":
+		g.famCollide(k)
 	default:
 		g.famRandom(k)
 	}
@@ -2211,6 +2224,8 @@ func init() {
 		add("random", ctx.N(24, 500))
 		add("endpoints", ctx.N(64, 256))
 		add("details", ctx.N(16, 64))
+		add("lists", ctx.N(24, 96))
+		add("collide", ctx.N(32, 128))
 		cases := make([]c12Case, len(jobs))
 		var wg sync.WaitGroup
 		sem := make(chan struct{}, 12)
@@ -2282,6 +2297,6 @@ func init() {
 		_ = os.WriteFile(filepath.Join(ctx.Out, "cases.json"), jb, 0o644)
 		ctx.Meta.Cases = len(cases)
 		ctx.Meta.Distinct = len(seen)
-		ctx.Meta.Rule = "CRUD histories on dynamic clients of the real provider, in six families (token guard catalogue: operation x token kind; rotation on/off; odd request members; capability fields against random server feature sets; scripted embedder hook between the two validations; random mixes), both storage flavours; distinct by (operations, outcome) trace; non-trivial = at least one accepted and one refused operation"
+		ctx.Meta.Rule = "CRUD histories on dynamic clients of the real provider, in six families (token guard catalogue: operation x token kind; rotation on/off; odd request members; capability fields against random server feature sets; scripted embedder hook between the two validations; random mixes; every (token, introspection, revocation) method combination; authorization detail types; 'lists': servers whose three method lists differ pairwise x every method of their union named per endpoint, on create and update; 'collide': the read-modify-write client - updates whose bodies carry the response's own members with the real current credentials, then with other values, each followed by a read, per authentication method, with and without rotation), both storage flavours; distinct by (operations, outcome) trace; non-trivial = at least one accepted and one refused operation"
 	}})
 }
